@@ -41,7 +41,9 @@ PathTable == << <<2, 5, 6>>,            \* 1  m.j       first component starts w
                 <<3, 1, 2>>,            \* 2  e/m       every component consists of prefix characters
                 <<4, 1, 4, 5, 6>>,      \* 3  a/a.j     harmless
                 <<4, 1, 2, 5, 6>>,      \* 4  a/m.j     same directory as 3
-                <<4, 5, 6>> >>          \* 5  a.j       harmless, top level
+                <<4, 5, 6>>,            \* 5  a.j       harmless, top level
+                <<4>> >>                \* 6  a         a FILE path that is the DIRECTORY of paths 3 and 4: a path cannot be both;
+                                        \*              saving below a file fails and leaves the file, saving onto a directory fails
 Rel(p) == PathTable[p]
 LenOf(v) == v              \* value v has a JSON text of length proportional to v: different lengths on purpose
 Pick(S) == IF SimK = 0 \/ Cardinality(S) <= SimK THEN S ELSE RandomSubset(SimK, S)
@@ -197,12 +199,20 @@ ReadSeq(fs, p, api) ==
             ELSE IF ~IsFile(t, loc) THEN Fail("not_found")
             ELSE IF t[loc].stale THEN Fail("corrupt") ELSE OKRecs(t[loc].recs)
 
+\* pg.io.mkdirs(path): makes the path itself a directory (fails when a component, the last one included, is a file)
+MkdirAt(fs, p) ==
+  LET t == tree[fs]  loc == Loc(fs, Full(p)) IN
+  /\ fs \in {"std", "mem"} /\ NoWriterOn(fs, p) /\ (fs = "mem" => p \in MemPaths)
+  /\ act' = <<"MkdirAt", fs, p>> /\ UNCHANGED <<writer, ghost>>
+  /\ IF MkdirsOK(t, loc) THEN /\ tree' = [tree EXCEPT ![fs] = Mkdirs(t, loc)] /\ out' = OK(0)
+     ELSE /\ out' = Fail("not_a_directory") /\ UNCHANGED tree
+
 Init == /\ tree = [fs \in FSKinds |-> <<>> :> Dir] /\ writer = NoWriter
         /\ gdoc = [fs \in FSKinds |-> [p \in PathIds |-> 0]] /\ grecs = [fs \in FSKinds |-> [p \in PathIds |-> <<>>]]
         /\ act = <<"Init">> /\ out = OK(0)
 Next ==
   \/ \E fs \in FSKinds \ {"rec"} : \E p \in Pick(PathIds) :
-        (\E v \in Pick(Vals) : Save(fs, p, v)) \/ Load(fs, p) \/ Exists(fs, p) \/ Rm(fs, p)
+        (\E v \in Pick(Vals) : Save(fs, p, v)) \/ Load(fs, p) \/ Exists(fs, p) \/ Rm(fs, p) \/ MkdirAt(fs, p)
   \/ \E fs \in FSKinds : \E p \in Pick(PathIds) : \E api \in Apis : (\E m \in {"w", "a"} : OpenSeq(fs, p, m, api)) \/ ReadSeq(fs, p, api)
   \/ \E r \in Pick(Vals) : Add(r)
   \/ CloseSeq
@@ -218,8 +228,13 @@ SeqReadYourWrites ==
   act[1] = "ReadSeq" =>
     LET want == grecs[act[2]][act[3]] IN
     IF want # <<>> THEN out = OKRecs(want) ELSE (out.k # "ok" \/ out.recs = <<>>)
-\* a successful write is acknowledged: Save / OpenSeq on these paths never fail (no path is a directory of another)
-WritesSucceed == act[1] \in {"Save", "OpenSeq"} => out.k = "ok"
+\* a write is acknowledged unless the path is in a file / directory conflict with another path of the model (one is a
+\* proper component prefix of the other) or was made a directory by MkdirAt
+CompPrefix(a, b) == Len(a) < Len(b) /\ SubSeq(b, 1, Len(a)) = a
+Conflicting(p) == \E q \in PathIds : CompPrefix(Split(Rel(q)), Split(Rel(p))) \/ CompPrefix(Split(Rel(p)), Split(Rel(q)))
+WritesSucceed == (act[1] \in {"Save", "OpenSeq"} /\ ~Conflicting(act[3]) /\ out.k # "ok") =>
+                    (act[2] # "rec" /\ IsDir(tree[act[2]], Loc(act[2], Full(act[3]))))
+\* (that a refused write leaves what was saved readable is ReadYourWrites: the ghost is only updated by successful writes)
 \* a write that reports success is never lost to another path: files of different paths do not alias
 NoAliasing == \A fs \in FSKinds \ {"rec"} : \A p, q \in PathIds :
                 p # q => (LET a == Loc(fs, Full(p))  b == Loc(fs, Full(q)) IN a # b \/ a = <<>>)
